@@ -52,6 +52,21 @@ def _name_order_disagrees(spec) -> bool:
     return False
 
 
+def _twin_siblings_parity_odd(spec) -> bool:
+    """two daughters of ONE node are the same particle (with spin), the node is parity-odd, and some transition gives them opposite
+    non-zero projections: the chain and its parity partner differ only by which of the two identical daughters carries which projection"""
+    twin = spec["meta"].get("twin")
+    if not twin:
+        return False
+    for tr in spec["transitions"]:
+        t = tr["topology"]
+        for n, nd in tr["nodes"].items():
+            ch = sorted(e for e, ed in t.edges.items() if ed.originating_node_id == n)
+            if nd["eta"] == -1 and ch == sorted(twin) and tr["states"][ch[0]][1] * tr["states"][ch[1]][1] < 0:
+                return True
+    return False
+
+
 _TARGETED = {"n": 0}
 
 
@@ -63,6 +78,12 @@ def spec_fn(rng):
             # (opposite-sign projections of two integer-spin daughters need a parent of spin >= 2)
             spec = U.synth_spec(rng, nfs=3, formalism="helicity", helset="full", maxspin2=4, ntop=1)
             if spec and len(spec["transitions"]) <= 60 and _name_order_disagrees(spec):
+                return spec
+    if _TARGETED["n"] < 5:
+        _TARGETED["n"] += 1
+        for _ in range(3000):
+            spec = U.synth_spec(rng, nfs=3, formalism="helicity", helset="full", maxspin2=4, ntop=1, identical=True, name_by="set")
+            if spec and len(spec["transitions"]) <= 60 and _twin_siblings_parity_odd(spec):
                 return spec
     return U.synth_spec(rng, nfs=rng.choice([2, 3, 3, 4]), formalism="helicity", helset=rng.choice(["full", "full", "restricted"]))
 
